@@ -170,7 +170,12 @@ class UserGSC:
 
 # ---------------------------------------------------------------- spec generation
 def rand_spec(rng, **force):
+    from . import focus as _focus
+
+    fc = _focus.get()  # change-directed generation: inactive (no extra draws) on the recorded source
     nlev = int(force.get("nlev", rng.choice([1, 2, 2, 2, 3, 3, 3])))
+    if fc.active and fc.sprout and "nlev" not in force and rng.random() < 0.5:
+        nlev = 3
     d = int(force.get("dim", rng.integers(2, 4)))
     if rng.random() < 0.3:
         bounds = [[-0.1, 0.2], [-0.3, 0.6], [0.1, 0.7]][:d]
@@ -182,6 +187,8 @@ def rand_spec(rng, **force):
     maximize = bool(force.get("maximize", rng.random() < 0.35))
     objective = force.get("objective", str(rng.choice(["four", "four", "plateau0", "sphere", "penalty", "offset"])))
     hib = bool(force.get("hibernation", rng.random() < 0.3))
+    if fc.active and fc.tree and "hibernation" not in force and rng.random() < 0.3:
+        hib = True
 
     def lsc():
         c = int(rng.integers(0, 7))
@@ -201,6 +208,10 @@ def rand_spec(rng, **force):
         pool = ENGINES_ROOT if lvl == 0 else (ENGINES_LEAF if last else ENGINES_MID)
         pool = force.get("engines", {}).get(lvl, pool) if isinstance(force.get("engines"), dict) else pool
         k = str(rng.choice(pool))
+        if fc.active and fc.engines and rng.random() < 0.5:
+            fav = [e for e in fc.engines if e in pool]
+            if fav:
+                k = str(rng.choice(fav))
         L = {"engine": k, "generations": int(rng.integers(force.get("min_generations", 1), max(4, force.get("min_generations", 1) + 2))), "pop_size": int(rng.integers(5, 13)), "lsc": lsc(),
              # child populations are sampled around the seed with this standard deviation: small, of the
              # order of the box, and several box widths (rejection sampling against the box must hold, C01)
